@@ -720,7 +720,9 @@ func c12Run(r *Run) {
 			ast.Inspect(d.Body, func(n ast.Node) bool {
 				if c, ok := n.(*ast.CallExpr); ok && !found {
 					if cal := calleeFunc(pkg.TypesInfo, c); cal != nil && cal.Pkg() == pkg.Types {
-						if hd := declOf(pkg, cal); hd != nil && hd != d && consults(hd, depth+1) {
+						// a helper stands for the base lookup only if it cannot answer "not there" before it
+						// has asked the base (a negative cache in front of the base call does not count)
+						if hd := declOf(pkg, cal); hd != nil && hd != d && consults(hd, depth+1) && !c12MissBeforeBase(pkg.TypesInfo, hd, baseCalls(hd)) {
 							found = true
 						}
 					}
@@ -826,4 +828,40 @@ func buildsTempVM(info *types.Info, fd *ast.FuncDecl, tvm *types.Named) bool {
 		return true
 	})
 	return found
+}
+
+// c12MissBeforeBase: some path through fd returns a "not found" answer (a literal false result) without
+// having made one of the given base-VM calls.
+func c12MissBeforeBase(info *types.Info, fd *ast.FuncDecl, base map[string]*ast.CallExpr) bool {
+	if len(base) == 0 {
+		return false // the helper consults the base through further helpers: judged there
+	}
+	isBase := map[*ast.CallExpr]bool{}
+	for _, c := range base {
+		isBase[c] = true
+	}
+	type st struct{ asked bool }
+	bad := false
+	h := &Hooks{Info: info}
+	h.Copy = func(s State) State { c := *s.(*st); return &c }
+	h.Join = func(a, b State) State { return &st{a.(*st).asked && b.(*st).asked} }
+	h.Equal = func(a, b State) bool { return *a.(*st) == *b.(*st) }
+	h.Visit = func(e ast.Expr, s State) State {
+		if c, ok := e.(*ast.CallExpr); ok && isBase[c] {
+			s.(*st).asked = true
+		}
+		return s
+	}
+	h.Return = func(rs *ast.ReturnStmt, s State) {
+		if s.(*st).asked {
+			return
+		}
+		for _, res := range rs.Results {
+			if exprStr(res) == "false" {
+				bad = true
+			}
+		}
+	}
+	WalkFunc(h, fd.Body, &st{})
+	return bad
 }
